@@ -1038,6 +1038,33 @@ fn replay_joincol(_args: &[String]) -> i32 {
     0
 }
 
+/// C08 probe: `droptable` -- "no text of deleted rows or dropped tables remains in the file's string
+/// data": a table whose rows hold a string that nothing else uses is dropped, the package saved, and
+/// the `_StringData` stream of the saved file searched for that string.
+fn replay_droptable(_args: &[String]) -> i32 {
+    use msi::{Column, Insert};
+    use std::io::Read;
+    panic::set_hook(Box::new(|_| {}));
+    let marker = "only-the-dropped-table-uses-this-text";
+    let r = panic::catch_unwind(|| -> Result<bool, String> {
+        let mut p = Package::create(PackageType::Installer, Cursor::new(Vec::new())).map_err(|e| e.to_string())?;
+        p.create_table("Doomed", vec![Column::build("K").primary_key().int16(), Column::build("S").nullable().string(64)]).map_err(|e| e.to_string())?;
+        p.insert_rows(Insert::into("Doomed").row(vec![Value::Int(1), Value::Str(marker.into())])).map_err(|e| e.to_string())?;
+        p.drop_table("Doomed").map_err(|e| e.to_string())?;
+        let bytes = p.into_inner().map_err(|e| e.to_string())?.into_inner();
+        let mut comp = cfb::CompoundFile::open(Cursor::new(bytes)).map_err(|e| e.to_string())?;
+        let mut data = Vec::new();
+        comp.open_stream(mangle_table_name("_StringData")).map_err(|e| e.to_string())?.read_to_end(&mut data).map_err(|e| e.to_string())?;
+        Ok(data.windows(marker.len()).any(|w| w == marker.as_bytes()))
+    });
+    match r {
+        Err(_) => { println!("REPLAY family=droptable verdict=VIOLATED (panicked)"); 1 }
+        Ok(Err(e)) => { println!("REPLAY family=droptable setup failed: {e} verdict=ok (not applicable)"); 0 }
+        Ok(Ok(true)) => { println!("REPLAY family=droptable table=Doomed string={marker:?} verdict=VIOLATED (after drop_table and saving, the text of the dropped table's row is still in _StringData: its reference was never released)"); 1 }
+        Ok(Ok(false)) => { println!("REPLAY family=droptable verdict=ok (the text of the dropped table is gone from the string data)"); 0 }
+    }
+}
+
 fn main() {
     let args: Vec<String> = std::env::args().skip(1).collect();
     if args.is_empty() {
@@ -1064,6 +1091,7 @@ fn main() {
         "enumsemi" => replay_enumsemi(&args[1..]),
         "longname" => replay_longname(&args[1..]),
         "joincol" => replay_joincol(&args[1..]),
+        "droptable" => replay_droptable(&args[1..]),
         _ => 2,
     };
     std::process::exit(rc);
